@@ -505,8 +505,48 @@ def contentOk (re : Re Sym) (kids : List XNode) : Bool :=
 def contentErr (re : Re Sym) (kids : List XNode) : Err :=
   if Re.stuck Sym.sat re (kids.map XNode.name) then .unexpectedChild else .contentIncomplete
 
-/-- `xsi:type` may name the declared type itself, a type derived from it, or anything when the
-    declared type is `xs:anyType`. -/
+/-- base type of a built-in type in the XSD 1.0 hierarchy (`none` for primitives) -/
+def Builtin.base? : Builtin → Option Builtin
+  | .normalizedString => some .string
+  | .token => some .normalizedString
+  | .language => some .token
+  | .name => some .token
+  | .nmtoken => some .token
+  | .ncName => some .name
+  | .id => some .ncName
+  | .idref => some .ncName
+  | .entity => some .ncName
+  | .integer => some .decimal
+  | .nonNegativeInteger => some .integer
+  | .nonPositiveInteger => some .integer
+  | .long => some .integer
+  | .positiveInteger => some .nonNegativeInteger
+  | .unsignedLong => some .nonNegativeInteger
+  | .negativeInteger => some .nonPositiveInteger
+  | .int => some .long
+  | .short => some .int
+  | .byte => some .short
+  | .unsignedInt => some .unsignedLong
+  | .unsignedShort => some .unsignedInt
+  | .unsignedByte => some .unsignedShort
+  | _ => none
+
+def Builtin.derivesN : Nat → Builtin → Builtin → Bool
+  | 0, b, b' => b == b'
+  | n + 1, b, b' => b == b' || (match b.base? with | some c => Builtin.derivesN n c b' | none => false)
+
+/-- `u` is `t` or is derived from it by restriction (built-in hierarchy included) -/
+def SimpleTy.derivesFrom : SimpleTy → SimpleTy → Bool
+  | u, t =>
+    u == t || t == .prim .anySimple ||
+    (match u with
+     | .prim b => (match t with | .prim b' => Builtin.derivesN 8 b b' | _ => false)
+     | .restrict base _ => base.derivesFrom t
+     | _ => false)
+
+/-- `xsi:type` may name the declared type itself, a type derived from it (a complex type with
+    simple content counts as derived from its simple base), or anything when the declared type is
+    `xs:anyType`. -/
 def derivedOk (S : Schema) (actual declared : TypeRef) : Bool :=
   match declared with
   | .anyType => true
@@ -516,8 +556,12 @@ def derivedOk (S : Schema) (actual declared : TypeRef) : Bool :=
      | _ => false)
   | .simple t =>
     (match actual with
-     | .simple u => u == t || t == .prim .anySimple
-     | _ => false)
+     | .simple u => u.derivesFrom t
+     | .complex a =>
+       (match S.types[a]? with
+        | some T => (match T.content with | .simple u => u.derivesFrom t | _ => false)
+        | none => false)
+     | .anyType => false)
 
 /-- one attribute against a complex type; returns the ID value it contributes, if any -/
 def attrOk (S : Schema) (T : TypeDef) (q : QN) (v : List Char) : Except Err Ids :=
@@ -672,6 +716,12 @@ def validate (S : Schema) (n : XNode) : Except Err Unit :=
   | some d => do
     let ids ← vElem S d n
     if nodup ids then pure () else throw .dupId
+
+/-- the error class that rejects a document, `none` when it is accepted -/
+def verdict (S : Schema) (n : XNode) : Option Err :=
+  match validate S n with
+  | .ok _ => none
+  | .error e => some e
 
 def valid (S : Schema) (n : XNode) : Bool :=
   match validate S n with
